@@ -167,6 +167,7 @@ def book_absorb(repo: Repo) -> List[Ob]:
     from ..types import Typer
     typer = Typer(repo, fi)
     k = 0
+    kinds_seen: Set[str] = set()
     for n in walk_no_nested(fi.node):
         if isinstance(n, ast.Assign) and isinstance(n.value, ast.Call) and call_np(n.value) == "kron" and len(n.value.args) == 2:
             blk_src = src(n.value.args[1])
@@ -179,6 +180,7 @@ def book_absorb(repo: Repo) -> List[Ob]:
             k += 1
             released = False
             is_ps = typer.classes(ast.parse(owner, mode="eval").body) == {"ProductState"}
+            kinds_seen.add("product-space" if is_ps else "envelope" if expand_src(fi.node, ast.parse(owner, mode="eval").body).endswith(".envelope") else "own")
             for s in cands:
                 for x in [s] + list(walk_no_nested(s)):
                     if isinstance(x, ast.Assign):
@@ -191,8 +193,9 @@ def book_absorb(repo: Repo) -> List[Ob]:
             key = f"release#{k}:{owner.split('.')[-1]}"
             (obs.append(ok("BOOK-absorb", fi, key, P, n, f"the absorbed block `{blk_src}` is released by its previous owner")) if released else
              obs.append(bad("BOOK-absorb", fi, key, P, n, f"`{blk_src}` is multiplied into the new product space but its previous owner keeps it: the subsystem's state now lives in two places")))
-    if k < 5:
-        raise AnalysisError(f"BOOK-absorb: {k} absorption sites (floor 5)")
+    kinds = kinds_seen
+    if k < 3 or len(kinds) < 3:
+        raise AnalysisError(f"BOOK-absorb: {k} absorption sites of kinds {sorted(kinds)} (floor: a product-space block, an envelope block and a stand-alone block)")
     # an envelope's stored state is absorbed once per call: inside the loop over the requested subsystems both members of one
     # envelope can appear, and their indices are only refreshed at the end – the absorbing branch must itself exclude a member
     # whose envelope was already taken in this call (it is in the order list / a set of absorbed envelopes by then)
